@@ -123,10 +123,17 @@ func (o *c09) Step(r *StepRec) []Violation {
 		targeted := targetsCtx(a) && a.CtxID == id
 		// the configuration changes only through a successful update of this very context
 		if !(targeted && (a.Kind == KUpdateCtx || a.Kind == KModUpdate)) {
-			if !sameAddrs(provHexes(p0), provHexes(p1)) || !p0.ServiceFeeCap.IsEqual(p1.ServiceFeeCap) || p0.Timeout != p1.Timeout ||
+			if !sameAddrs(provHexes(p0), provHexes(p1)) || p0.ServiceFeeCap.String() != p1.ServiceFeeCap.String() || p0.Timeout != p1.Timeout ||
 				p0.RepeatedFrequency != p1.RepeatedFrequency || p0.RepeatedTotal != p1.RepeatedTotal || p0.ResponseThreshold != p1.ResponseThreshold {
 				o.fail("c09:config:"+a.Kind, "configuration (providers/cap/timeout/frequency/total/threshold) of context %s changed in %s", short(id), a.Kind)
 			}
+		} else if r.OK {
+			// a successful update changes exactly what it names; an empty list / zero field means "keep"
+			// (client/cli/flags.go: "not updated if empty", "not updated if set to 0")
+			if msg := updateMismatch(a, p0, p1); msg != "" {
+				o.fail("c09:update_fields:"+a.Kind, "update of context %s: %s", short(id), msg)
+			}
+			o.hit("update_applied")
 		}
 		if p0.State != p1.State {
 			legal := false
@@ -318,6 +325,28 @@ func (o *c10) Step(r *StepRec) []Violation {
 				(p0.RepeatedTotal < 0 || int64(p0.BatchCounter) < p0.RepeatedTotal) &&
 				t.freqAt < 1<<40 && h == t.batches[n-1]+int64(t.freqAt) && !pausedForFunds && alive {
 				o.fail("c10:missed", "context %s: batch due at height %d (previous %d, frequency %d) did not start", short(id), h, t.batches[n-1], t.freqAt)
+			}
+		}
+	}
+	if a.Kind == KUpdateCtx || a.Kind == KModUpdate {
+		// "with unchanged timeout and frequency": they are changed only by an update that names new ones
+		// (zero means "keep"); an update of something else leaves the cadence alone
+		if p0, ok0 := pre.Ctxs[a.CtxID]; ok0 {
+			if p1, ok1 := post.Ctxs[a.CtxID]; ok1 {
+				wantF, wantT := p0.RepeatedFrequency, p0.Timeout
+				if a.Freq != 0 {
+					wantF = a.Freq
+				}
+				if a.Timeout != 0 {
+					wantT = a.Timeout
+				}
+				if p1.RepeatedFrequency != wantF || p1.Timeout != wantT {
+					o.fail("c10:update_cadence", "update of context %s naming timeout %d / frequency %d left timeout %d / frequency %d (were %d / %d)",
+						short(a.CtxID), a.Timeout, a.Freq, p1.Timeout, p1.RepeatedFrequency, p0.Timeout, p0.RepeatedFrequency)
+				}
+				if a.Freq == 0 && a.Timeout == 0 {
+					o.hit("update_not_naming_timeout_or_frequency")
+				}
 			}
 		}
 	}
@@ -635,4 +664,52 @@ func (o *c12) Step(r *StepRec) []Violation {
 func (o *c12) NonTrivial() bool {
 	c := o.cls
 	return c["module_batch_completed_early"] > 0 || (c["module_batch_below_threshold"] > 0 && c["batch_completed_at_expiry"] > 0) || c["module_state_callback"] > 0
+}
+
+// updateMismatch compares the configuration after a successful update with what the update named:
+// a named field takes the given value, an omitted one (empty list, no coins, zero) keeps its value.
+func updateMismatch(a Action, p0, p1 types.RequestContext) string {
+	wantProv := provHexes(p0)
+	if len(a.Providers) > 0 {
+		wantProv = a.Providers
+	}
+	if !sameAddrs(wantProv, provHexes(p1)) {
+		return fmt.Sprintf("providers are %v, expected %v", provHexes(p1), wantProv)
+	}
+	wantCap := p0.ServiceFeeCap.String()
+	if c := a.capOf(); len(c) > 0 {
+		wantCap = c.String()
+	}
+	if p1.ServiceFeeCap.String() != wantCap {
+		return fmt.Sprintf("fee cap is %s, expected %s", p1.ServiceFeeCap, wantCap)
+	}
+	wantTimeout := p0.Timeout
+	if a.Timeout != 0 {
+		wantTimeout = a.Timeout
+	}
+	if p1.Timeout != wantTimeout {
+		return fmt.Sprintf("timeout is %d, expected %d", p1.Timeout, wantTimeout)
+	}
+	wantFreq := p0.RepeatedFrequency
+	if a.Freq != 0 {
+		wantFreq = a.Freq
+	}
+	if p1.RepeatedFrequency != wantFreq {
+		return fmt.Sprintf("frequency is %d, expected %d (the update named %d)", p1.RepeatedFrequency, wantFreq, a.Freq)
+	}
+	wantTotal := p0.RepeatedTotal
+	if a.Total != 0 {
+		wantTotal = a.Total
+	}
+	if p1.RepeatedTotal != wantTotal {
+		return fmt.Sprintf("total is %d, expected %d", p1.RepeatedTotal, wantTotal)
+	}
+	wantThr := p0.ResponseThreshold
+	if a.Kind == KModUpdate && a.Threshold != 0 {
+		wantThr = a.Threshold
+	}
+	if p1.ResponseThreshold != wantThr {
+		return fmt.Sprintf("response threshold is %d, expected %d", p1.ResponseThreshold, wantThr)
+	}
+	return ""
 }
